@@ -71,6 +71,10 @@ def build(cls, c, alarms):
                 al.TRIGGER_RELATED = t["related"]
         elif t["k"] == "abs":
             al.TRIGGER = gamma({"kind": "utc", "m": t["m"]})
+            if (t["m"] // 10) % 2 == 0:
+                # an absolute trigger is that instant "regardless of the component's times": a (meaningless) RELATED
+                # parameter next to it changes nothing
+                al.TRIGGER_RELATED = "END" if (t["m"] // 20) % 2 == 0 else "START"
         if a["repeat"] > 0 or a["dur"] != -1:
             al.REPEAT = a["repeat"]
         if a["dur"] != -1:
